@@ -1481,12 +1481,26 @@ class BADS:
                 if yval_vec.size == 1:
                     yval_vec = np.vstack((yval_vec, self.yval))
                     if self.options["specify_target_noise"]:
+                        # SD of the earlier observation at the returned point
+                        # (the logged row of that point, not the last row)
+                        idx_u = np.flatnonzero(
+                            np.all(
+                                self.function_logger.X[
+                                    : self.function_logger.Xn + 1
+                                ]
+                                == self.u,
+                                axis=1,
+                            )
+                        )
+                        idx_sd = (
+                            idx_u[0]
+                            if idx_u.size > 0
+                            else self.function_logger.Xn
+                        )
                         ysd_vec = np.vstack(
                             (
                                 ysd_vec,
-                                self.function_logger.S[
-                                    self.function_logger.Xn
-                                ],
+                                self.function_logger.S[idx_sd],
                             )
                         )
 
